@@ -142,7 +142,7 @@ def run(ctx):
     b = vlib.harness_bin("c08")
     tp = ctx.path("trace-all.ndjson")
     rc, out, wall = vlib.sh([b, "record", tp, "seed=%d" % ctx.seed] +
-                            (["docs=400", "muts=3", "ins=2", "tiny=4"] if q else ["docs=2500", "muts=10", "ins=6", "tiny=12"]),
+                            (["docs=400", "muts=3", "ins=2", "tiny=4"] if q else ["docs=1200", "muts=8", "ins=4", "tiny=12"]),
                             timeout=1200)
     ctx.stage("record", wall, **json.loads(out.strip().splitlines()[-1]))
     evs = vlib.read_ndjson(tp)
